@@ -406,6 +406,8 @@ func ruleErrDrop(w *World, r *Report, set map[*ssa.Function]bool) {
 					switch {
 					case isNilConst(ev):
 						leak = ret
+					case zeroValueResults(ret):
+						// an explicit failure return (`return nil, <some error>`), possibly shared with another failing test
 					case failing.Dominates(y) && len(failing.Preds) == 1:
 						// a return of the failing path itself: whatever it reports was decided there
 					case errCarries(ev, x, map[ssa.Value]bool{}):
@@ -507,4 +509,32 @@ func errCarries(v, x ssa.Value, seen map[ssa.Value]bool) bool {
 		}
 	}
 	return false
+}
+
+
+// zeroValueResults: every result but the last (the error) is a nil / zero / false constant.
+func zeroValueResults(ret *ssa.Return) bool {
+	if len(ret.Results) < 2 {
+		return false
+	}
+	for _, v := range ret.Results[:len(ret.Results)-1] {
+		c, ok := v.(*ssa.Const)
+		if !ok {
+			return false
+		}
+		if c.Value == nil {
+			continue
+		}
+		if b, okb := constBool(c); okb && !b {
+			continue
+		}
+		if n, okn := constInt(c); okn && n == 0 {
+			continue
+		}
+		if sv, oks := constString(c); oks && sv == "" {
+			continue
+		}
+		return false
+	}
+	return true
 }
